@@ -293,3 +293,24 @@ CHECKS["C17"] = dict(
     floors=dict(any={"TestC17Subs.events_checked": 8000, "TestC17Subs.per_transfer_checked": 80, "TestC17Subs.unsubscribed_checked": 100, "TestC17Subs.late_subscribers": 100, "TestC17Subs.opened_during_terminal_delivery": 15}),
     assumptions=["one applied event = one datastore write unless the record is byte-identical (collapsed on both sides); the harness advances the virtual clock between stimuli"],
 )
+
+CHECKS["C19"] = dict(
+    level="exploration",
+    rule=("C19Logs: two real managers joined by the emulated transport; 3-27 PRNG exchanges: the initiator sends vouchers, the responder sends voucher results and validation "
+          "updates carrying results, 1 in 3 sends fails in the network double, identical values are repeated; after every step both sides' voucher and result logs must equal the "
+          "lists of successfully sent values (failed sends not recorded, each successful one exactly once, in order), and every state (queries and all subscriber snapshots) "
+          "must satisfy: IsPull <=> initiator is recipient, ChannelID = (initiator, responder, id) as created, OtherPeer is the other party, first voucher = opening voucher, "
+          "logs append-only along the snapshot stream, Last* = last entry or the empty value. C19Concurrent: 2-4 concurrent senders and 1-2 readers on one log; the recorded "
+          "history is checked with porcupine against an append-only list. Totality: every state handed out in the parts listed here (incl. crash-replay, migration, terminal "
+          "stimuli and subscriber engines) has all 30 accessors called under recover. distinct = (direction, log sizes) / final log order."),
+    parts=[
+        dict(test="TestC19Logs", quick=160, thorough=12000, per_shard=20),
+        dict(test="TestC19Concurrent", quick=120, thorough=8000, per_shard=15),
+        dict(test="TestC02Mgr", quick=24, thorough=480, per_shard=6),
+        dict(test="TestC06Crash", quick=16, thorough=320, per_shard=2),
+        dict(test="TestC13Migrate", quick=24, thorough=480, per_shard=6),
+        dict(test="TestC17Subs", quick=24, thorough=480, per_shard=6),
+    ],
+    floors=dict(any={"TestC19Logs.states_probed": 5000, "TestC19Logs.failed_sends": 300, "TestC19Logs.validation_results": 200, "TestC19Concurrent.operations": 800}),
+    assumptions=["for results carried by UpdateValidationStatus only 'sent => recorded exactly once' is asserted"],
+)
